@@ -529,7 +529,13 @@ def rule_sym(F):
         raise AnchorError("morphism_toposort no longer takes six tables")
     # Which uses does each parameter flow into? One taint label per parameter; closures (also nested ones) receive their
     # labels through the fields of the closure environment, in the order the creating body builds the closure aggregate.
-    SYMMETRIC = ("std::iter::Iterator::chain", "std::option::Option::or_else", "std::option::Option::or", "std::iter::Iterator::zip")
+    # chain/zip consume both halves, so the position of a half does not matter. A short-circuit (`a.or_else(|| b)`) consumes the
+    # second half only if the first has nothing: that is symmetric only where a key has at most one tuple in both halves together
+    # -- audited: the codomain lookup (cod is a function graph, the halves are disjoint). For set-valued lookups (the morphisms
+    # out of an object) it would drop one half.
+    SYMMETRIC = ("std::iter::Iterator::chain", "std::iter::Iterator::zip")
+    SHORT_CIRCUIT = ("std::option::Option::or_else", "std::option::Option::or")
+    SHORT_CIRCUIT_AUDITED = {"cod"}
     uses = {i: [] for i in range(1, 7)}
     taints = {b.path: Taint(b, {i: "P%d" % i for i in range(1, 7)})}
     closures = F.closures_of(b)
@@ -556,7 +562,10 @@ def rule_sym(F):
             c = short(callee(tm))
             for ai, a in enumerate(tm["args"]):
                 for lab in t.read_op(a):
-                    uses[int(lab[1:])].append((c, "*" if c in SYMMETRIC else ai))
+                    pi = int(lab[1:])
+                    pair_name = {1: "dom", 2: "dom", 3: "cod", 4: "cod", 5: "obj", 6: "obj"}[pi]
+                    sym = c in SYMMETRIC or (c in SHORT_CIRCUIT and pair_name in SHORT_CIRCUIT_AUDITED)
+                    uses[pi].append((c, "*" if sym else ai))
         # closures handed to a symmetric combinator count as that combinator's use
     pairs = ((1, 2, "dom"), (3, 4, "cod"), (5, 6, "obj"))
     for a, c, name in pairs:
